@@ -11,7 +11,7 @@ RUN_MODULE = "C11.Run"
 RUN_FN = "run_case"
 HARNESS_BIN = "c11"
 HARNESS_BINS = ["c11"]
-SHRINK_KEEP = ("new", "bad", "expect", "drain_check", "drain_check_x", "arrive", "peer_close", "sndbuf", "flush_check", "write")
+SHRINK_KEEP = ("new", "bad", "expect", "drain_check", "drain_check_x", "arrive", "peer_close", "sndbuf", "flush_check", "write", "bb_worker")
 RULE = ("cases: delivery histories (d*: framed WorkerResponse stream, optionally with malformed frames in "
         "between, cut at seeded points into arrive/ev/turn triples), API-level op sequences (a*), writer "
         "sequences (w*), malformed-prefix sequences (m*); sizes straddle init, 2*init, max/2, max. "
@@ -277,7 +277,22 @@ def blocking_case(rng, cid):
     return Case(cid, ops, dict(msgs=len(good), chunks=1))
 
 
+def bb_cases(rng, tier):
+    """black-box: a real worker with its command channel under back-pressure (lib/src/server.rs send_queue /
+    read_channel_messages_and_notify); few cases, each takes ~2 s"""
+    k = {"quick": 2, "thorough": 8, "search": 4}.get(tier, 2)
+    out = []
+    for i in range(k):
+        init, mx = rng.choice([(1024, 16384), (512, 8192), (2048, 32768)])
+        out.append(Case("bb%d" % i, [["bb_worker", init, mx, rng.choice([120, 200, 300]), rng.choice([800, 1500])]], dict(msgs=0, chunks=0)))
+    return out
+
+
 def gen_cases(rng, tier):
+    return bb_cases(rng, tier) + gen_cases_inproc(rng, tier)
+
+
+def gen_cases_inproc(rng, tier):
     n = {"quick": 3000, "thorough": 60000, "search": 20000}.get(tier, 3000)
     out = []
     for i in range(n):
